@@ -52,6 +52,9 @@ Apply(x, e) ==
     [] e.c = "UserFinish"     -> UserFinish(x)
     [] e.c = "UserDisconnect" -> UserDisconnect(x, e.a.force)
     [] e.c = "UserApi"        -> UserApi(x)
+    \* the peer closed the socket of connection i (0: a transport whose connection had let go of it already):
+    \* a connection that is alive does not survive that
+    [] e.c = "EnvLoss"        -> IF e.a.i = 0 \/ x.st[e.a.i] = "closed" THEN Internal(x) ELSE EnvClose(x, e.a.i)
     [] OTHER                  -> Internal(x)          \* environment events, library callbacks, idle points
 
 TStep ==
